@@ -21,6 +21,8 @@ CONTROLS = [
     'E1|<verif_controls::ConstFinishedObserver<O> as Observer>::is_finished',
     'E1|<verif_controls::HalfFinishedObserver<O> as Observer>::is_finished',
     'E1|<verif_controls::AlwaysFinishedObserver<O> as Observer>::is_finished',
+    'E1|<verif_controls::AndFinishedObserver<O> as Observer>::is_finished',
+    'E1|<verif_controls::OrFinishedObserver<O> as Observer>::is_finished',
     'E2|<verif_controls::EagerIter<I> as Observable>::actual_subscribe',
     'E2|verif_controls::eager_tick',
     'E4|<verif_controls::CompleteInNext<O> as Observer>::next',
@@ -65,21 +67,29 @@ def e1(cx):
             k = n['kind']
             # the downstream's own answer is branched on (`down.is_finished() || something_else`)
             d0, v0 = sw_value(lab)
-            if d0 is not None and v0 in (0, 1) and st in ('down', 'down_f'):
+            if d0 is not None and v0 in (0, 1) and st in ('down', 'down_f', 'down_t'):
                 dd0 = strip(d0)
                 neg0 = 0
                 while dd0[0] == 'un' and dd0[1] == 'Not':
                     dd0 = strip(dd0[2])
                     neg0 ^= 1
                 if dd0 in down_vals:
-                    st = 'down' if (v0 ^ neg0) == 1 else 'down_f'
+                    st = 'down_t' if (v0 ^ neg0) == 1 else 'down_f'
+            ret_slot = (not n.get('ctx')) and ((k == 'assign' and n['lhs'][0] == 'local' and n['lhs'][1] == 0) or
+                                               (k == 'call' and n.get('dest') and n['dest'][0] == 'local' and n['dest'][1] == 0 and down_method(n) != 'is_finished'))
+            if st == 'down_t' and ret_slot:
+                # the downstream said it is finished: the answer on this path must be true (`down.is_finished() && own_condition` hides the end from the producers)
+                if k == 'call' or (const_bool(n['rhs']) is not True and strip(n['rhs']) not in down_vals):
+                    return 'under'
+            if st == 'down_f' and ret_slot and k == 'call':
+                return 'extra'
             if st == 'down_f' and k == 'assign' and not n['ctx'] and n['lhs'][0] == 'local' and n['lhs'][1] == 0:
                 b0 = const_bool(n['rhs'])
                 if b0 is False:
                     return 'down'
                 if strip(n['rhs']) not in down_vals:
                     return 'extra'
-            if st == 'extra':
+            if st in ('extra', 'under'):
                 return st
             if k == 'call':
                 m = down_method(n)
@@ -116,7 +126,7 @@ def e1(cx):
             return st
 
         reached, pred = explore(g, 'none', step)
-        bad = [(nid, st) for nid, st in ret_states(g, reached) if st not in ('down', 'down_f', 'empty_true')]
+        bad = [(nid, st) for nid, st in ret_states(g, reached) if st not in ('down', 'down_t', 'down_f', 'empty_true')]
         if bad:
             nid, st = bad[0]
             rets0 = [x['rhs'] for x in g.nodes if x['kind'] == 'assign' and not x['ctx'] and x['lhs'][0] == 'local' and x['lhs'][1] == 0]
@@ -126,9 +136,11 @@ def e1(cx):
                    'const_false': 'returns the constant false: producers upstream of this observer never learn that the stream ended',
                    'const_true': 'returns the constant true on a path where the downstream slot is not known to be empty',
                    'extra': 'answers from something else than the downstream observer on a path where the downstream said it is not finished (`down.is_finished() || own_condition`): the operator reports finished while its downstream is alive',
+                   'under': 'answers from something else than the downstream observer on a path where the downstream said it is finished (`down.is_finished() && own_condition`): the end of the stream is hidden from the producers upstream, which are never retired',
                    'empty': 'empty-slot path does not answer true',
                    'empty_false': 'empty-slot path answers false (a finished stream looks alive)'}.get(st, st)
             res.append(Finding(ID, 'E1', label, False, msg, fn['span'], witness(g, pred, (nid, st), interesting_default)))
+            res[-1].state = st
         else:
             res.append(Finding(ID, 'E1', label, True, 'forwards is_finished', fn['span']))
     return res
